@@ -31,15 +31,15 @@ PLAN = dict(
                  "be distinct addresses",
                  "leg dbg: the same target with -DTBB_USE_DEBUG=1 (tbbmalloc_debug configuration): a failed MALLOC_ASSERT is reported as a violation",
                  "huge pages off; x86-64 Linux only"],
-    floor=dict(quick=3000, thorough=40000),
+    floor=dict(quick=1500, thorough=30000),
     tiers=dict(
-        quick=[fz("fz", 16, 2600, 19),
-               fz("dbg", 16, 1000, 10, cxxflags=["-DTBB_USE_DEBUG=1"]),
-               det("xfree", XH, "cs-rel", 16, 220, 5, tso=False, time_cap=8, with_malloc=True)],
-        thorough=[fz("fz", 16, 45000, 300),
-                  fz("dbg", 16, 14000, 120, cxxflags=["-DTBB_USE_DEBUG=1"]),
-                  fz("fz-empty", 16, 10000, 70, seeds=False),
-                  det("xfree", XH, "cs-rel", 16, 6000, 6, tso=False, time_cap=80, with_malloc=True)],
+        quick=[fz("fz", 16, 2400, 15),
+               fz("dbg", 16, 900, 8, cxxflags=["-DTBB_USE_DEBUG=1"]),
+               det("xfree", XH, "cs-rel", 16, 200, 5, tso=False, time_cap=7, with_malloc=True)],
+        thorough=[fz("fz", 16, 12000, 260),
+                  fz("dbg", 16, 9000, 110, cxxflags=["-DTBB_USE_DEBUG=1"]),
+                  fz("fz-empty", 16, 3000, 60, seeds=False),
+                  det("xfree", XH, "cs-rel", 16, 5000, 6, tso=False, time_cap=80, with_malloc=True)],
     ),
 )
 TEXT = dict(
